@@ -191,8 +191,8 @@ func main() {
 			defer func() { <-sem }()
 			e := newEvalCtx(j.c.allSpecs())
 			if j.c.Kind == "det" {
-				j.line = j.c.driverLine(e.recs)
 				j.det = runDet(j.c, e)
+				j.line = j.c.driverLine(e.recs) // after the run: a recycled pack object fixes its encoding at hand-in
 			} else if j.c.Kind == "reconf" {
 				j.reconf = runReconf(j.c, e)
 				j.line = j.reconf.modelLine
@@ -316,6 +316,15 @@ func distribution(rep *vh.Report, c *Case, packs []string) {
 		}
 		if s.Time == 0 {
 			rep.Count("time:0")
+		}
+		if s.Bad != "" {
+			rep.Count("rec:unserialisable:" + s.Bad)
+		}
+		if s.TagHash != 0 {
+			rep.Count("rec:caller-tag-hash")
+		}
+		if s.ReuseOf != 0 {
+			rep.Count("rec:recycled-object-requested")
 		}
 	}
 	rep.Count(fmt.Sprintf("maxBuf:%d", c.Settings.MaxBuf))
